@@ -1,6 +1,7 @@
 package harness
 
 import (
+	"fmt"
 	"os"
 	"sort"
 	"strings"
@@ -15,7 +16,7 @@ func captureStderr() func() string {
 	if st, err := os.Stat(base); err != nil || !st.IsDir() {
 		base = os.TempDir()
 	}
-	f, err := os.CreateTemp(base, "verif-race-*.txt")
+	f, err := os.CreateTemp(base, fmt.Sprintf("verif-race-%d-*.txt", os.Getpid()))
 	if err != nil {
 		return func() string { return "" }
 	}
